@@ -178,6 +178,7 @@ func VerifC04ECSStoreHit() {
 	resp.AuthenticatedData = nondetBool()
 	hasMatching := false
 	hasSOA := false
+	soaMin := uint32(0)
 	switch verifChoice(4) {
 	case 0: // matching answer
 		hasMatching = true
@@ -185,7 +186,8 @@ func VerifC04ECSStoreHit() {
 		resp.Answer = []dns.RR{&dns.CNAME{Hdr: dns.RR_Header{Name: "example.org.", Rrtype: dns.TypeCNAME, Class: dns.ClassINET, Ttl: ttl}, Target: "x.example."}}
 	case 2: // NODATA with SOA
 		resp.Answer = nil
-		resp.Ns = []dns.RR{&dns.SOA{Hdr: dns.RR_Header{Name: "org.", Rrtype: dns.TypeSOA, Class: dns.ClassINET, Ttl: ttl}, Ns: "ns.org.", Mbox: "m.org.", Minttl: nondetU32()}}
+		soaMin = nondetU32()
+		resp.Ns = []dns.RR{&dns.SOA{Hdr: dns.RR_Header{Name: "org.", Rrtype: dns.TypeSOA, Class: dns.ClassINET, Ttl: ttl}, Ns: "ns.org.", Mbox: "m.org.", Minttl: soaMin}}
 		hasSOA = true
 	case 3: // other type first
 		resp.Answer = []dns.RR{&dns.TXT{Hdr: dns.RR_Header{Name: "example.org.", Rrtype: dns.TypeTXT, Class: dns.ClassINET, Ttl: ttl}, Txt: []string{"x"}}}
@@ -194,7 +196,21 @@ func VerifC04ECSStoreHit() {
 	verifSetClock(t0)
 	cr := &cacheRequest{host: "example.org", subnet: netip.PrefixFrom(netip.IPv4Unspecified(), 0), qType: dns.TypeA, qClass: dns.ClassINET}
 	dep := verifChoice(2) == 1
-	lowest := dnsmsg.FindLowestTTL(resp)
+	// reference (RFC 2308): the lowest TTL of the single record is its header TTL,
+	// for an SOA additionally capped by a non-zero MINIMUM; SERVFAIL at most 30 s
+	lowest := ttl
+	if hasSOA && soaMin > 0 && soaMin < lowest {
+		lowest = soaMin
+	}
+	if resp.Rcode == dns.RcodeServerFailure && lowest > 30 {
+		lowest = 30
+	}
+	if lowest == 1<<32-1 {
+		// the all-ones TTL doubles as the "no record seen" guard: such an answer is
+		// simply not cached, which the property allows (RFC 2181 caps TTLs at 2^31-1)
+		lowest = 0
+	}
+	verifAssert("lowest-ttl-equals-reference", dnsmsg.FindLowestTTL(resp) == lowest)
 	mw.set(resp, cr, dep)
 	target, other := noECS, ecs
 	if dep {
@@ -239,6 +255,9 @@ func VerifC04ECSStoreHit() {
 	if len(got.Answer) == 1 {
 		verifAssert("hit-same-rrtype", got.Answer[0].Header().Rrtype == resp.Answer[0].Header().Rrtype)
 		verifAssert("hit-ttl-not-above-original", got.Answer[0].Header().Ttl <= lowest)
+	}
+	if len(got.Ns) == 1 {
+		verifAssert("hit-authority-ttl-not-above-original", got.Ns[0].Header().Ttl <= ttl && got.Ns[0].Header().Ttl <= lowest)
 	}
 	verifReach("hit")
 	_ = req
